@@ -96,6 +96,58 @@ func c30String(enc Encoder, tag string) {
 	}
 }
 
+// c30Char: ONE well-formed UTF-8 character of 1..4 symbolic
+// bytes followed by 0..1 symbolic ASCII bytes, through the strict Encode: the
+// string encodes iff each of its characters does (an unrepresentable character
+// is REPORTED, never skipped), nothing is dropped, and Decode gives the string
+// back. (Added after the seeded change /verif/seeded/C30-rangemap-encode-offbyone
+// — the strict encoder no longer probing 4-byte prefixes — was missed by the
+// 1..2-byte string harnesses.)
+func c30Char(enc Encoder, tag string) {
+	rm := enc.(*RangeMap)
+	k := nd.IntRange(tag+".k", 1, 4)
+	m := nd.IntRange(tag+".m", 0, 1)
+	ch := nd.Bytes(tag+".ch", k)
+	nd.Assume(c30WellFormedChar(ch))
+	full := append([]byte{}, ch...)
+	var tail []byte
+	if m == 1 {
+		t := nd.Uint8(tag + ".tail")
+		nd.Assume(t < 0x80)
+		tail = []byte{t}
+		full = append(full, t)
+	}
+	nd.Reach(tag + ".char")
+	e, ok := rm.Encode(full)
+	ec, okc := rm.EncodeRune(ch)
+	want := okc
+	var et []byte
+	if m == 1 {
+		var okt bool
+		et, okt = rm.EncodeRune(tail)
+		want = nd.And(want, okt)
+	}
+	nd.Assert(tag+".char.encodes-iff-every-character-does", ok == want)
+	if ok {
+		nd.Assert(tag+".char.encoding-is-concatenation", bytes.Equal(e, append(append([]byte{}, ec...), et...)))
+		d, okD := rm.Decode(e)
+		nd.Assert(tag+".char.decode-gives-the-string-back", nd.And(okD, bytes.Equal(d, full)))
+	}
+}
+
+func VerifC30CharLatin1()   { c30Char(Latin1, "c30.latin1") }
+func VerifC30CharAscii()    { c30Char(Ascii, "c30.ascii") }
+func VerifC30CharCp1256()   { c30Char(Cp1256, "c30.cp1256") }
+func VerifC30CharCp1257()   { c30Char(Cp1257, "c30.cp1257") }
+func VerifC30CharDec8()     { c30Char(Dec8, "c30.dec8") }
+func VerifC30CharGeostd8()  { c30Char(Geostd8, "c30.geostd8") }
+func VerifC30CharLatin7()   { c30Char(Latin7, "c30.latin7") }
+func VerifC30CharArmscii8() { c30Char(Armscii8, "c30.armscii8") }
+func VerifC30CharSwe7()     { c30Char(Swe7, "c30.swe7") }
+func VerifC30CharUtf16()    { c30Char(Utf16, "c30.utf16") }
+func VerifC30CharUtf32()    { c30Char(Utf32, "c30.utf32") }
+func VerifC30CharUtf8mb3()  { c30Char(Utf8mb3, "c30.utf8mb3") }
+
 func VerifC30RuneLatin1()   { c30Rune(Latin1, "c30.latin1") }
 func VerifC30RuneAscii()    { c30Rune(Ascii, "c30.ascii") }
 func VerifC30RuneCp1256()   { c30Rune(Cp1256, "c30.cp1256") }
